@@ -145,3 +145,135 @@ impl StableModel {
         c
     }
 }
+
+/// Compact-indexed multigraph (Graph semantics): live node indices are 0..n, live edge indices 0..m.
+/// Edge weights are unique tags, so after a node removal (whose edge renumbering is documented only as
+/// "as if each incident edge had been removed") edges are identified by their weight.
+#[derive(Clone, Copy)]
+pub struct CompactModel {
+    pub directed: bool,
+    pub n: usize,
+    pub m: usize,
+    pub node: [u8; NS],
+    pub edge: [(u8, u8, u8); ES + 1],
+    /// true while edge indices are known exactly (no remove_node since the start)
+    pub exact_edge_ix: bool,
+}
+impl CompactModel {
+    pub fn new(directed: bool) -> Self {
+        CompactModel { directed, n: 0, m: 0, node: [0; NS], edge: [(0, 0, 0); ES + 1], exact_edge_ix: true }
+    }
+    pub fn add_node(&mut self, w: u8) {
+        self.node[self.n] = w;
+        self.n += 1;
+    }
+    pub fn add_edge(&mut self, a: u8, b: u8, w: u8) {
+        self.edge[self.m] = (a, b, w);
+        self.m += 1;
+    }
+    /// documented: the last edge adopts the removed index
+    pub fn remove_edge(&mut self, e: usize) -> Option<u8> {
+        if e >= self.m {
+            return None;
+        }
+        let w = self.edge[e].2;
+        self.edge[e] = self.edge[self.m - 1];
+        self.m -= 1;
+        Some(w)
+    }
+    /// documented: all incident edges go, the last node adopts the removed index
+    pub fn remove_node(&mut self, a: usize) -> Option<u8> {
+        if a >= self.n {
+            return None;
+        }
+        let w = self.node[a];
+        // drop incident edges (order of the survivors is not part of the contract)
+        let mut i = 0;
+        while i < self.m {
+            let (s, t, _) = self.edge[i];
+            if s as usize == a || t as usize == a {
+                self.edge[i] = self.edge[self.m - 1];
+                self.m -= 1;
+            } else {
+                i += 1;
+            }
+        }
+        let last = self.n - 1;
+        self.node[a] = self.node[last];
+        self.n -= 1;
+        // edges of the moved node are renumbered
+        i = 0;
+        while i < self.m {
+            let (mut s, mut t, w2) = self.edge[i];
+            if s as usize == last {
+                s = a as u8;
+            }
+            if t as usize == last {
+                t = a as u8;
+            }
+            self.edge[i] = (s, t, w2);
+            i += 1;
+        }
+        self.exact_edge_ix = false;
+        Some(w)
+    }
+    pub fn connects(&self, i: usize, a: usize, b: usize) -> bool {
+        let (s, t, _) = self.edge[i];
+        i < self.m && ((s as usize == a && t as usize == b) || (!self.directed && s as usize == b && t as usize == a))
+    }
+    pub fn count_edges(&self, a: usize, b: usize) -> usize {
+        let mut c = 0;
+        let mut i = 0;
+        while i < ES + 1 {
+            if i < self.m && self.connects(i, a, b) {
+                c += 1;
+            }
+            i += 1;
+        }
+        c
+    }
+    pub fn by_weight(&self, w: u8) -> Option<(u8, u8)> {
+        let mut i = 0;
+        while i < ES + 1 {
+            if i < self.m && self.edge[i].2 == w {
+                return Some((self.edge[i].0, self.edge[i].1));
+            }
+            i += 1;
+        }
+        None
+    }
+    pub fn degree(&self, a: usize, out: bool) -> usize {
+        let mut c = 0;
+        let mut i = 0;
+        while i < ES + 1 {
+            if i < self.m {
+                let (s, t, _) = self.edge[i];
+                let (s, t) = (s as usize, t as usize);
+                if self.directed {
+                    if (out && s == a) || (!out && t == a) {
+                        c += 1;
+                    }
+                } else if s == a || t == a {
+                    c += 1;
+                }
+            }
+            i += 1;
+        }
+        c
+    }
+    /// most recently added out-edge target of a (directed): the edge with the largest weight tag among a's out-edges
+    pub fn newest_out(&self, a: usize) -> Option<u8> {
+        let mut best: Option<(u8, u8)> = None;
+        let mut i = 0;
+        while i < ES + 1 {
+            if i < self.m {
+                let (s, t, w) = self.edge[i];
+                if s as usize == a && best.map_or(true, |b| w > b.0) {
+                    best = Some((w, t));
+                }
+            }
+            i += 1;
+        }
+        best.map(|b| b.1)
+    }
+}
